@@ -175,7 +175,26 @@ def main():
                 continue
             gen, go, lean, stats = stream_cmds(s, prop, seed, tier, workdir)
             st = lib.run_stream(s["name"], gen, go, lean, workdir)
-            n, flagged, diffs, smp, dn = lib.compare_stream(st, cfg["flag"], diff_violation=cfg.get("diff_violation"), diff_ignore=cfg.get("diff_ignore"))
+            n, flagged, diffs, smp, dn = lib.compare_stream(st, cfg["flag"], diff_violation=cfg.get("diff_violation"), diff_ignore=cfg.get("diff_ignore"),
+                                                            max_report=2000 if s.get("confirm") else 20)
+            if s.get("confirm") and (flagged or diffs):
+                # timing-sensitive stream: what it reports is run again, alone, with patient timing. A real
+                # violation (deadlock, overrun, wrong admission) is a property of the script and shows again;
+                # a line that was only slow on a loaded machine does not.
+                bad = []
+                for x in flagged + diffs:
+                    if x and x["op"] not in bad:
+                        bad.append(x["op"])
+                overflow = any(x is None for x in flagged + diffs)
+                if bad and not overflow:
+                    st2 = lib.run_stream(s["name"] + ".confirm", None, go, lean, workdir, ops_lines=bad, go_env=s["confirm"])
+                    n2, flagged2, diffs2, _, _ = lib.compare_stream(st2, cfg["flag"], diff_violation=cfg.get("diff_violation"),
+                                                                    diff_ignore=cfg.get("diff_ignore"), max_report=2000)
+                    dist[s["name"] + ".reported_first_pass"] = len(bad)
+                    dist[s["name"] + ".not_reproduced_with_patient_timing"] = len(bad) - len(set(x["op"] for x in flagged2 + diffs2 if x))
+                    flagged, diffs = flagged2[:20], diffs2[:20]
+                    if st2["go_rc"] != 0:
+                        broken.append({"kind": "harness-crash", "what": st2["go_err"]})
             if st.get("ignored"):
                 dist[s["name"] + ".outside_model_domain"] = st["ignored"]
             total += n; flagged_n += len(flagged); diff_n += len(diffs); distinct += dn
